@@ -23,6 +23,14 @@ impl Check for C02 {
         prop_oneof![7 => scenario_strategy(&p), 2 => bulk_scenario_strategy(tier.pick(100, 300), tier.pick(40, 120), true, true)].boxed()
     }
 
+    fn extra(&self, tier: Tier, seed: u64) -> ExtraResult {
+        if tier != Tier::Thorough {
+            return ExtraResult::default();
+        }
+        // coverage-guided search over the same scenario space with the same oracle (harness/fuzz, target pair_oracles)
+        crate::props::pairfuzz::pair_fuzz_extra("C02", seed, 250_000, &|sc| self.run(sc), &|sc| serde_json::to_value(sc).unwrap_or_default())
+    }
+
     fn cases(&self, tier: Tier) -> u64 {
         tier.pick(30_000, 1_000_000)
     }
